@@ -487,10 +487,39 @@ pub fn generate_truth(seed: u64, n: usize, _tier: &str, emit: &mut dyn FnMut(Str
             truths[g] = t;
         }
         let mut js: Vec<String> = vec![];
+        // some key / value groups of a mapping are left without explicit equalities: their variables
+        // are joined only through the component equalities of the mapping evidence itself (one
+        // mapping judgement per member, all sharing the other component's variable)
+        let mut unchained = vec![false; ngroups];
+        for g in 0..ngroups {
+            if let Truth::Map(k, val) = &truths[g] {
+                let (k, val) = (*k, *val);
+                // (not when a contradiction is injected below: a class that resolves to a conflict owes
+                // nobody its component equalities, cf. the carve-out of C14)
+                if idx % 2 == 0 && k != g && val != g && k != val && r.chance(1, 2) {
+                    let (loose, fixed) = if r.chance(1, 2) { (k, val) } else { (val, k) };
+                    if members[loose].len() >= 2 && !unchained[fixed] {
+                        unchained[loose] = true;
+                        let x = members[g][0];
+                        let f0 = members[fixed][0];
+                        for &m in &members[loose] {
+                            if loose == k {
+                                js.push(format!("{x}>map:{m}:{f0}"));
+                            } else {
+                                js.push(format!("{x}>map:{f0}:{m}"));
+                            }
+                        }
+                    }
+                }
+            }
+        }
         for g in 0..ngroups {
             let vs = members[g].clone();
             // equalities chaining the group's variables (sometimes redundantly)
             for w in vs.windows(2) {
+                if unchained[g] {
+                    continue;
+                }
                 if r.chance(4, 5) {
                     js.push(format!("{}>eq:{}", w[0], w[1]));
                 } else {
